@@ -159,8 +159,50 @@ class Program:
             if os.path.exists(p):
                 self.go[rel] = open(p, encoding="utf-8").read()
         self.pure_methods = self._pure_method_names()
+        self.mod_attrs = self._mod_attr_sets()
         from . import cfg as _cfg
         _cfg.PURE_METHODS = self.pure_methods
+        _cfg.MOD_ATTRS = self.mod_attrs
+
+    def _mod_attr_sets(self):
+        """name of function/method -> attribute names it may store to, transitively through package calls (by name)."""
+        by_name: Dict[str, list] = {}
+        for m in self.modules.values():
+            for f in m.funcs.values():
+                by_name.setdefault(f.name, []).append(f)
+        direct: Dict[str, set] = {}
+        calls: Dict[str, set] = {}
+        for name, fs in by_name.items():
+            d, c = set(), set()
+            for f in fs:
+                for n in own_nodes(f.node):
+                    if isinstance(n, (ast.Assign, ast.AugAssign, ast.AnnAssign, ast.Delete)):
+                        tg = n.targets if isinstance(n, (ast.Assign, ast.Delete)) else [n.target]
+                        for t in tg:
+                            for x in ast.walk(t):
+                                if isinstance(x, ast.Attribute) and isinstance(x.ctx, (ast.Store, ast.Del)):
+                                    d.add(x.attr)
+                                if isinstance(x, ast.Subscript) and isinstance(x.ctx, (ast.Store, ast.Del)) and isinstance(x.value, ast.Attribute):
+                                    d.add(x.value.attr)
+                    if isinstance(n, ast.Call):
+                        fn = n.func
+                        nm = fn.attr if isinstance(fn, ast.Attribute) else fn.id if isinstance(fn, ast.Name) else None
+                        if nm in by_name:
+                            c.add(nm)
+                        if isinstance(fn, ast.Attribute) and isinstance(fn.value, ast.Attribute) and fn.attr in (
+                                "append", "extend", "insert", "remove", "pop", "clear", "update", "setdefault", "sort", "add", "discard"):
+                            d.add(fn.value.attr)
+            direct[name], calls[name] = d, c
+        out = {k: set(v) for k, v in direct.items()}
+        changed = True
+        while changed:
+            changed = False
+            for k in out:
+                for c in calls[k]:
+                    if not out[c] <= out[k]:
+                        out[k] |= out[c]
+                        changed = True
+        return out
 
     # -- purity (used by the must-facts kill rule: a call of a pure method does not invalidate facts) ---
     _PURE_BUILTINS = {"len", "sum", "all", "any", "str", "list", "tuple", "isinstance", "max", "min", "int", "float", "bool",
